@@ -342,8 +342,29 @@ def cases(draw, reproducible=False):
     return c
 
 
+def enum_purity_all_kinds(tier):
+    """One representative configuration of EVERY runnable estimator kind, on data with gaps /
+    outliers, as a DataFrame and as a Series, with a fixed interleaving that repeats every call."""
+    base = {"values": [7.0, 9.5, 6.25, 11.0, 8.0, 12.5, 9.0, 13.25, 10.5, 14.0], "start": 3, "index_kind": "range", "seed": 11, "rs": 5,
+            "order": [0, 1, 0, 2, 1, 3, 2, 3, 4, 4, 5, 5], "marks": [4, 11, 17], "int_valued": False, "n_jobs": 1}
+    for sp in pools.FORECASTER_ENUM:
+        yield dict(base, family="forecaster", spec=sp, as_frame=False, container="nested")
+    for sp in panelpool.SERIES_TRANSFORMER_ENUM:
+        for fr in (False, True):
+            yield dict(base, family="series_transformer", spec=sp, as_frame=fr, container="nested")
+    for k in panelpool.PANEL_TRANSFORMERS:
+        if k == "plateau":
+            continue
+        for cont in ("nested", "numpy3d"):
+            yield dict(base, family="panel_transformer", spec={"kind": k}, as_frame=False, container=cont)
+    for k in panelpool.CLASSIFIERS + ("tsfr",):
+        for cont in ("nested", "numpy3d"):
+            yield dict(base, family="panel_estimator", spec={"kind": k, "n_columns": 1}, as_frame=True, container=cont)
+
+
 def subchecks():
     return [
+        SubCheck("purity_every_kind", oracle_purity, enumerate_cases=enum_purity_all_kinds, shards_quick=16, shards_thorough=16, exhaustive=True),
         SubCheck("purity_and_repeatability", oracle_purity, cases(), quick=700, thorough=10000, shards_quick=10, shards_thorough=16),
         SubCheck("reproducibility_pickle_n_jobs", oracle_reproducible, cases(reproducible=True), quick=400, thorough=6000, shards_quick=12, shards_thorough=16),
         SubCheck("n_jobs_invariance", oracle_n_jobs, n_jobs_cases(), quick=96, thorough=1600, shards_quick=16, shards_thorough=16),
